@@ -308,14 +308,16 @@ func genFCase(t *rapid.T) FCase {
 	}
 	c.Expr = rapid.SampledFrom(pool).Draw(t, "expr")
 	if c.Probe == "provenance" {
-		// per-node operators only: in eval-all mode `,` lists each operand over all documents in turn
-		c.Expr = "di, fi, filename, length"
+		// per-node operators only: in eval-all mode `,` lists each operand over all documents in turn. The last three
+		// ask a value that replaces the document (its length) where it comes from
+		ln := "length"
 		if seqDoc {
-			c.Expr = "di, fi, filename, (.[0] | length)"
+			ln = "(.[0] | length)"
 		}
 		if c.Format == "xml" {
-			c.Expr = "di, fi, filename, (.root | length)"
+			ln = "(.root | length)"
 		}
+		c.Expr = "di, fi, filename, " + ln + ", (length | di), (length | fi), (length | filename)"
 		c.Out = "json"
 	}
 	return c
@@ -371,20 +373,22 @@ func checkF(c FCase) hx.Verdict {
 		if err != nil {
 			return hx.Bad("", "not JSON: %q", whole.Stdout)
 		}
-		if len(got) != 4*total {
-			return hx.Bad("", "provenance: %d results for %d documents (4 each): %q files=%q", len(got), total, whole.Stdout, ftexts(c))
+		const per = 7
+		if len(got) != per*total {
+			return hx.Bad("", "provenance: %d results for %d documents (%d each): %q files=%q", len(got), total, per, whole.Stdout, ftexts(c))
 		}
 		n := 0
 		for fi, docs := range c.Files {
 			for di, d := range docs {
-				want := []*model.Value{model.NewInt(int64(di)), model.NewInt(int64(fi)), model.NewStr(names[fi]), model.NewInt(int64(len(d.Keys)))}
+				want := []*model.Value{model.NewInt(int64(di)), model.NewInt(int64(fi)), model.NewStr(names[fi]), model.NewInt(int64(len(d.Keys))),
+					model.NewInt(int64(di)), model.NewInt(int64(fi)), model.NewStr(names[fi])}
 				for j, w := range want {
-					g := got[4*n+j] // sequence mode: document after document
+					g := got[per*n+j] // sequence mode: document after document
 					if c.EvalAll {
 						g = got[j*total+n] // one evaluation: operand after operand
 					}
 					if !model.Equal(g, w) {
-						return hx.Bad("", "document %d of file %d (%s input, eval-all=%v) reports %s for %s, expected %s: output %q files=%q", di, fi, c.Format, c.EvalAll, g.JSON(), []string{"document_index", "file_index", "filename", "its number of keys"}[j], w.JSON(), whole.Stdout, ftexts(c))
+						return hx.Bad("", "document %d of file %d (%s input, eval-all=%v) reports %s for %s, expected %s: output %q files=%q", di, fi, c.Format, c.EvalAll, g.JSON(), []string{"document_index", "file_index", "filename", "its number of keys", "length | document_index", "length | file_index", "length | filename"}[j], w.JSON(), whole.Stdout, ftexts(c))
 					}
 				}
 				n++
